@@ -499,6 +499,112 @@ var propFalsifiers = map[string]func(w *World, fn *ssa.Function, r vcResult) *Co
 	"C19": raceFalsifier,
 	"C06": panicFalsifier,
 	"C18": textFalsifier,
+	"C15": cliFalsifier,
+}
+
+// cliFalsifier runs the real CLI entry point and compares it with direct library calls for every ecosystem.
+func cliFalsifier(w *World, fn *ssa.Function, r vcResult) *Counterexample {
+	cmdPkg := w.byShort["cmd"]
+	if cmdPkg == nil {
+		return nil
+	}
+	var ecos []string
+	for name, p := range w.byShort {
+		if p.Pkg.Scope().Lookup("Ecosystem") != nil && p.Pkg.Scope().Lookup("Name") != nil {
+			ecos = append(ecos, name)
+		}
+	}
+	sort.Strings(ecos)
+	var b strings.Builder
+	b.WriteString("package main\n\nimport (\n\t\"bytes\"\n\t\"fmt\"\n\t\"strings\"\n\t\"testing\"\n")
+	for _, e := range ecos {
+		fmt.Fprintf(&b, "\tv_%s %q\n", e, w.byShort[e].Pkg.Path())
+	}
+	b.WriteString(")\n\ntype verifEco struct {\n\tname string\n\tpool []string\n\tcmp func(a, b string) (int, bool)\n\tcont func(r, v string) (bool, bool)\n}\n\n")
+	b.WriteString("func TestVerifReplay(t *testing.T) {\n\tecos := []verifEco{\n")
+	for _, e := range ecos {
+		pool := append([]string{"1.0^1", "1.0~rc1", "1.0-1", "1:2.0", "1.0a", "1.0.1", "1.0.0-alpha", "2.0.0", "1.0.0", "v1.2.3", "1.0_p1", "1.0-SNAPSHOT", "1.0.dev1"}, harvestStrings(w, w.byShort[e], true)...)
+		if len(pool) > 200 {
+			pool = pool[:200]
+		}
+		fmt.Fprintf(&b, "\t\t{v_%s.Name, %s,\n", e, goStringSlice(pool))
+		fmt.Fprintf(&b, "\t\t\tfunc(a, b string) (int, bool) { e := &v_%s.Ecosystem{}; x, err := e.NewVersion(a); if err != nil { return 0, false }; y, err := e.NewVersion(b); if err != nil { return 0, false }; return x.Compare(y), true },\n", e)
+		fmt.Fprintf(&b, "\t\t\tfunc(r, v string) (bool, bool) { e := &v_%s.Ecosystem{}; x, err := e.NewVersionRange(r); if err != nil { return false, false }; y, err := e.NewVersion(v); if err != nil { return false, false }; return x.Contains(y), true }},\n", e)
+	}
+	b.WriteString(`	}
+	n := 0
+	for _, ec := range ecos {
+		var vs, rs []string
+		for _, s := range ec.pool {
+			if _, ok := ec.cmp(s, s); ok && len(vs) < 25 {
+				vs = append(vs, s)
+			}
+		}
+		for _, s := range ec.pool {
+			if len(vs) > 0 {
+				if _, ok := ec.cont(s, vs[0]); ok && len(rs) < 8 {
+					rs = append(rs, s)
+				}
+			}
+		}
+		vs = append(vs, "not a version !!")
+		rs = append(rs, "][")
+		call := func(args ...string) (string, int) {
+			var buf bytes.Buffer
+			code := run(&buf, args)
+			return buf.String(), code
+		}
+		for _, a := range vs {
+			for _, b := range vs {
+				n++
+				out, code := call(ec.name, "compare", a, b)
+				want, ok := ec.cmp(a, b)
+				if ok && (code != 0 || out != fmt.Sprintf("%d\n", want)) {
+					fmt.Printf("VERIF-CX univers %s compare %q %q printed %q (exit %d), library says %d\n", ec.name, a, b, out, code, want)
+					return
+				}
+				if !ok && (code != 1 || strings.Count(out, "\n") != 1) {
+					fmt.Printf("VERIF-CX univers %s compare %q %q with an invalid version: exit %d output %q\n", ec.name, a, b, code, out)
+					return
+				}
+			}
+			for _, r := range rs {
+				n++
+				out, code := call(ec.name, "contains", r, a)
+				want, ok := ec.cont(r, a)
+				if ok && (code != 0 || out != fmt.Sprintf("%t\n", want)) {
+					fmt.Printf("VERIF-CX univers %s contains %q %q printed %q (exit %d), library says %t\n", ec.name, r, a, out, code, want)
+					return
+				}
+				if !ok && (code != 1 || strings.Count(out, "\n") != 1) {
+					fmt.Printf("VERIF-CX univers %s contains %q %q with an invalid argument: exit %d output %q\n", ec.name, r, a, code, out)
+					return
+				}
+			}
+		}
+		if out, code := call(ec.name); code != 1 || strings.Count(out, "\n") != 1 {
+			fmt.Printf("VERIF-CX univers %s (no command): exit %d output %q\n", ec.name, code, out)
+			return
+		}
+		if out, code := call(ec.name, "compare", "1"); code != 1 || strings.Count(out, "\n") != 1 {
+			fmt.Printf("VERIF-CX univers %s compare with one argument: exit %d output %q\n", ec.name, code, out)
+			return
+		}
+	}
+	fmt.Printf("VERIF-OK evals=%d ecosystems=%d\n", n, len(ecos))
+}
+`)
+	out, _ := runOverlayTest(w, cmdPkg, b.String(), 180*time.Second)
+	cx := &Counterexample{How: "the real CLI entry point run() against direct library calls, for every ecosystem name", Output: truncate(lastLines(out, 10), 2000)}
+	for _, ln := range strings.Split(out, "\n") {
+		if strings.HasPrefix(ln, "VERIF-CX ") {
+			cx.Confirmed = true
+			cx.Observed = strings.TrimPrefix(ln, "VERIF-CX ")
+			return cx
+		}
+	}
+	cx.Observed = "no difference observed"
+	return cx
 }
 
 const textTestTmpl = `package %s
